@@ -109,7 +109,7 @@ func (s *c16Scanner) appendOf(as *ast.AssignStmt, field string) ast.Expr {
 // c16Load builds the model of one scanner; problems are reported as undecided.
 func c16Load(c *Ctx, short string) *c16Scanner {
 	s := &c16Scanner{c: c, short: short, name: short + ".(*SoftwrapScanner).Scan", measure: map[types.Object]types.Object{}, measureLoop: map[ast.Stmt]bool{}}
-	s.fi = c.P.Func(s.name)
+	s.fi = c15Func(c, s.name)
 	pk := c.P.Pkg(short)
 	if s.fi == nil || pk == nil {
 		c.undecided("C16.a", s.name, 0, "function not found")
@@ -1412,6 +1412,7 @@ func runC16(c *Ctx) {
 		"C16.c plain and rich scanners have the same set of path signatures",
 		"C16.d draw loops: one row per emitted line (row += 1 once per line), col restarts at 0 and advances by the width of each written cell, WriteCell(col, row, cell-of-this-line)",
 		"C16.e every non-whitespace addition X to the token is guarded by w + width(X) <= s.width (a grapheme may exceed only on an empty line); w advanced by width(X) after every addition; widths measured over exactly X",
+		"C16.i the widgets draw from their current content: no field of the widget (nor package variable) is both written and read on the Draw path, and the one cell slice RichText measures and wraps is built in that Draw, from empty, by appending Cell{Character: ch, Style: seg.Style} for every ch of ctx.Characters(seg.Text) for every seg of Content, before any consumer runs",
 		"C16.f plain scanner: s.state is the returned state iff s.rest = rest, -1 for any other new rest, untouched when nothing is consumed; constructor starts at -1",
 		"C16.g progress: in the long-word split a grapheme is deferred to the next line only if the current line already has content (necessary for termination with a grapheme wider than the line)",
 	}
@@ -1426,6 +1427,7 @@ func runC16(c *Ctx) {
 	c.expect("C16.d", 28)
 	c.expect("C16.e", 20)
 	c.expect("C16.f", 6)
+	c.expect("C16.i", 8)
 	c.expect("C16.g", 2)
 	c16Progress(c)
 
@@ -1469,6 +1471,7 @@ func runC16(c *Ctx) {
 		}
 	}
 	c16DrawLoops(c)
+	c16DrawFromContent(c)
 	c15Dump(c)
 }
 
@@ -1586,7 +1589,7 @@ func (s *c16Scanner) widthRule() {
 func (s *c16Scanner) ctorRule() {
 	c := s.c
 	name := s.short + ".NewSoftwrapScanner"
-	fi := c.P.Func(name)
+	fi := c15Func(c, name)
 	if fi == nil || s.fields["state"] == nil {
 		c.undecided("C16.f", name, 0, "constructor or state field not found")
 		return
@@ -1625,7 +1628,7 @@ func c16DrawLoops(c *Ctx) {
 		{"vxfw/text.(*Text).Draw", false},
 		{"vxfw/richtext.(*RichText).Draw", false},
 	} {
-		fi := c.P.Func(d.fn)
+		fi := c15Func(c, d.fn)
 		if fi == nil {
 			c.undecided("C16.d", d.fn, 0, "function not found")
 			continue
@@ -1959,4 +1962,438 @@ func (p *c16Path) mayCut() bool {
 		}
 	}
 	return false
+}
+
+// ---------------------------------------------------------------------------
+// C16.i the widgets draw what their content is now
+
+func c16DrawFromContent(c *Ctx) {
+	for _, w := range []struct{ short, typ string }{{"vxfw/text", "Text"}, {"vxfw/richtext", "RichText"}} {
+		pk := c.P.Pkg(w.short)
+		name := w.short + ".(*" + w.typ + ").Draw"
+		fi := c15Func(c, name)
+		if pk == nil || fi == nil {
+			c.undecided("C16.i", name, 0, "Draw not found")
+			continue
+		}
+		info := pk.TypesInfo
+		fields := map[*types.Var]bool{}
+		for _, f := range c15StructFields(pk, w.typ) {
+			fields[f] = true
+		}
+		decls := map[*types.Func]*ast.FuncDecl{}
+		for _, f := range c.P.FuncsIn(w.short) {
+			if f.Decl.Body != nil {
+				decls[f.Obj] = f.Decl
+			}
+		}
+		// the Draw path: Draw and everything of this package it can call
+		seen := map[*types.Func]bool{fi.Obj: true}
+		work := []*types.Func{fi.Obj}
+		for len(work) > 0 {
+			fn := work[len(work)-1]
+			work = work[:len(work)-1]
+			ast.Inspect(decls[fn].Body, func(n ast.Node) bool {
+				if cl, ok := n.(*ast.CallExpr); ok {
+					if cal := calleeOf(info, cl); cal != nil && decls[cal] != nil && !seen[cal] {
+						seen[cal] = true
+						work = append(work, cal)
+					}
+				}
+				return true
+			})
+		}
+		// the storage location a written/read expression belongs to: a field of the widget or a package variable
+		base := func(e ast.Expr) *types.Var {
+			for {
+				e = unparen(e)
+				switch t := e.(type) {
+				case *ast.SelectorExpr:
+					if fv := c15Field(info, t); fv != nil && fields[fv] {
+						return fv
+					}
+					if _, isSel := info.Selections[t]; !isSel {
+						if v, ok := info.Uses[t.Sel].(*types.Var); ok && v.Parent() == pk.Types.Scope() {
+							return v
+						}
+						return nil
+					}
+					e = t.X
+				case *ast.IndexExpr:
+					e = t.X
+				case *ast.SliceExpr:
+					e = t.X
+				case *ast.StarExpr:
+					e = t.X
+				case *ast.Ident:
+					if v, ok := info.Uses[t].(*types.Var); ok && !v.IsField() && v.Parent() == pk.Types.Scope() {
+						return v
+					}
+					return nil
+				default:
+					return nil
+				}
+			}
+		}
+		written := map[*types.Var]token.Pos{}
+		read := map[*types.Var]bool{}
+		for fn := range seen {
+			lhs := map[ast.Expr]bool{}
+			ast.Inspect(decls[fn].Body, func(n ast.Node) bool {
+				switch t := n.(type) {
+				case *ast.AssignStmt:
+					for _, l := range t.Lhs {
+						if v := base(l); v != nil {
+							if _, ok := written[v]; !ok {
+								written[v] = l.Pos()
+							}
+							if t.Tok == token.ASSIGN || t.Tok == token.DEFINE {
+								lhs[unparen(l)] = true
+							}
+						}
+					}
+				case *ast.IncDecStmt:
+					if v := base(t.X); v != nil {
+						if _, ok := written[v]; !ok {
+							written[v] = t.X.Pos()
+						}
+					}
+				case *ast.UnaryExpr:
+					if t.Op == token.AND {
+						if v := base(t.X); v != nil && !fields[v] { // &pkgVar escapes: treat as written
+							if _, ok := written[v]; !ok {
+								written[v] = t.Pos()
+							}
+						}
+					}
+				}
+				return true
+			})
+			ast.Inspect(decls[fn].Body, func(n ast.Node) bool {
+				e, ok := n.(ast.Expr)
+				if !ok {
+					return true
+				}
+				if lhs[unparen(e)] {
+					return false // a plain store does not read the location
+				}
+				switch e.(type) {
+				case *ast.SelectorExpr, *ast.Ident:
+					if v := base(e); v != nil {
+						read[v] = true
+					}
+				}
+				return true
+			})
+		}
+		var carried []string
+		pos := fi.Decl.Pos()
+		for v, p := range written {
+			if read[v] {
+				carried = append(carried, v.Name())
+				pos = p
+			}
+		}
+		sort.Strings(carried)
+		c.check(len(carried) == 0, "C16.i", name+"/draws from the current content only", pos,
+			fmt.Sprintf("no field of %s and no package variable is both written and read on the Draw path (%d functions)", w.typ, len(seen)),
+			"the Draw path writes and reads "+strings.Join(carried, ", ")+": what is drawn depends on an earlier Draw, not only on the widget's content now (a stale line count, stale graphemes or stale styles after the content was edited in place)")
+	}
+	c16CellsRule(c)
+}
+
+// c16CellsRule: what RichText wraps and draws is its content, split into graphemes, each with the style of
+// its segment. The cell slice handed to the scanners (and to findContainerSize) is examined where it is
+// built: after normalisation that is inside Draw / drawSoftwrap themselves (helpers are inlined).
+func c16CellsRule(c *Ctx) {
+	for _, fn := range []string{"vxfw/richtext.(*RichText).drawSoftwrap", "vxfw/richtext.(*RichText).Draw"} {
+		fi := c15Func(c, fn)
+		if fi == nil {
+			c.undecided("C16.i", fn, 0, "function not found")
+			continue
+		}
+		c16CellsIn(c, fi)
+	}
+}
+
+func c16CellsIn(c *Ctx, fi *FuncInfo) {
+	name := fi.Name
+	info := fi.Pkg.TypesInfo
+	par := c.P.Parents(fi.Pkg)
+	g := c.P.Graph(fi)
+	fd := fi.Decl
+	defs := c15DefsOf(info, fd.Body)
+	var recv types.Object
+	if fd.Recv != nil && len(fd.Recv.List) == 1 && len(fd.Recv.List[0].Names) == 1 {
+		recv = info.Defs[fd.Recv.List[0].Names[0]]
+	}
+	content := c15StructFields(fi.Pkg, "RichText")["Content"]
+	if recv == nil || content == nil {
+		c.undecided("C16.i", name+"/signature", fd.Pos(), "receiver or RichText.Content not recognised")
+		return
+	}
+	// the consumers: the scanner constructors and findContainerSize of this package, called directly in this function
+	var res types.Object
+	var uses []Hit
+	okUse := true
+	for _, h := range g.Calls(func(f *types.Func, call *ast.CallExpr) bool {
+		if f == nil || f.Pkg() != fi.Pkg.Types || len(call.Args) == 0 {
+			return false
+		}
+		return f.Name() == "NewSoftwrapScanner" || f.Name() == "NewHardwrapScanner" || f.Name() == "findContainerSize"
+	}) {
+		call := h.Node.(*ast.CallExpr)
+		// the cells argument: the one of type []vaxis.Cell
+		var arg ast.Expr
+		for _, a := range call.Args {
+			if sl, ok := info.TypeOf(a).Underlying().(*types.Slice); ok && c15IsNamed(sl.Elem(), modPath, "Cell") {
+				arg = a
+			}
+		}
+		if arg == nil {
+			continue
+		}
+		uses = append(uses, h)
+		id, ok := unparen(arg).(*ast.Ident)
+		if !ok {
+			okUse = false
+			continue
+		}
+		o := info.ObjectOf(id)
+		if res != nil && res != o {
+			okUse = false
+		}
+		res = o
+	}
+	if len(uses) == 0 {
+		return // this function wraps nothing itself (it delegates)
+	}
+	if !okUse || res == nil {
+		c.bad("C16.i", name+"/measures and wraps the same cells", fd.Pos(), "the scanners and findContainerSize are not all given one and the same local cell slice: the surface is sized for other cells than the ones drawn")
+		return
+	}
+	c.ok("C16.i", name+"/measures and wraps the same cells", uses[0].Node.Pos(), "one cell slice (%s) feeds findContainerSize and the scanner", res.Name())
+	// res starts empty and is only appended to, inside `for seg of Content { for ch of ctx.Characters(seg.Text) { ... } }`
+	startsEmpty := false
+	emptyExpr := func(r ast.Expr) bool {
+		r = unparen(r)
+		if c16IsEmptyLit(r) || isNilExpr(info, r) {
+			return true
+		}
+		if cl, ok := r.(*ast.CallExpr); ok && len(cl.Args) >= 2 {
+			if id, ok := cl.Fun.(*ast.Ident); ok && id.Name == "make" {
+				if v, ok := constInt(info, cl.Args[1]); ok && v == 0 {
+					return true
+				}
+			}
+		}
+		return false
+	}
+	var foreign ast.Expr
+	ast.Inspect(fd.Body, func(n ast.Node) bool {
+		switch t := n.(type) {
+		case *ast.ValueSpec:
+			for k, nm := range t.Names {
+				if info.Defs[nm] == res {
+					if len(t.Values) == 0 || (k < len(t.Values) && emptyExpr(t.Values[k])) {
+						startsEmpty = true
+					} else if k < len(t.Values) {
+						foreign = t.Values[k]
+					}
+				}
+			}
+		case *ast.AssignStmt:
+			if t.Tok == token.DEFINE && len(t.Lhs) == len(t.Rhs) {
+				for k, l := range t.Lhs {
+					if id, ok := l.(*ast.Ident); ok && info.Defs[id] == res {
+						if emptyExpr(t.Rhs[k]) {
+							startsEmpty = true
+						} else if _, isID := unparen(t.Rhs[k]).(*ast.Ident); !isID {
+							foreign = t.Rhs[k]
+						}
+					}
+				}
+			}
+		}
+		return true
+	})
+	if foreign != nil {
+		if cl, ok := unparen(foreign).(*ast.CallExpr); ok {
+			if f := calleeOf(info, cl); f != nil && f.Pkg() == fi.Pkg.Types {
+				c.undecided("C16.i", name+"/cells are the graphemes of Content with their segment's style", foreign.Pos(), "the cells come from %s, which could not be inlined: how they derive from Content cannot be read off", f.Name())
+				return
+			}
+		}
+		c.bad("C16.i", name+"/cells are the graphemes of Content with their segment's style", foreign.Pos(), "the cells are %s, not a slice built in this Draw from the widget's Content: the widget can wrap and draw text or styles that are not its content now", types.ExprString(foreign))
+		return
+	}
+	var outer *c15Iter
+	nApp, okApp := 0, true
+	whyApp := ""
+	// the slice may be handed from one local to another (`cells = built`): all of them are examined
+	alias := map[types.Object]bool{res: true}
+	for grew := true; grew; {
+		grew = false
+		ast.Inspect(fd.Body, func(n ast.Node) bool {
+			as, ok := n.(*ast.AssignStmt)
+			if !ok || len(as.Lhs) != len(as.Rhs) {
+				return true
+			}
+			for i, l := range as.Lhs {
+				id, ok := unparen(l).(*ast.Ident)
+				if !ok || !alias[info.ObjectOf(id)] {
+					continue
+				}
+				if rid, ok := unparen(as.Rhs[i]).(*ast.Ident); ok {
+					if v, isVar := info.ObjectOf(rid).(*types.Var); isVar && !v.IsField() && v.Parent() != fi.Pkg.Types.Scope() && !alias[v] {
+						alias[v] = true
+						grew = true
+					}
+				}
+			}
+			return true
+		})
+	}
+	ast.Inspect(fd.Body, func(n ast.Node) bool {
+		as, ok := n.(*ast.AssignStmt)
+		if !ok {
+			return true
+		}
+		for i, l := range as.Lhs {
+			id, ok := unparen(l).(*ast.Ident)
+			if !ok || !alias[info.ObjectOf(id)] {
+				continue
+			}
+			bad := func(w string) {
+				if okApp {
+					okApp, whyApp = false, w
+				}
+			}
+			if len(as.Rhs) != len(as.Lhs) {
+				bad("the cells are assigned from a multi-value expression")
+				continue
+			}
+			if emptyExpr(as.Rhs[i]) {
+				if as.Tok == token.DEFINE && info.ObjectOf(id) != res {
+					startsEmpty = true
+				}
+				continue
+			}
+			if rid, ok := unparen(as.Rhs[i]).(*ast.Ident); ok && alias[info.ObjectOf(rid)] {
+				continue // hand-over between the examined locals
+			}
+			nApp++
+			cl, ok := unparen(as.Rhs[i]).(*ast.CallExpr)
+			if !ok || len(cl.Args) != 2 || cl.Ellipsis.IsValid() {
+				bad("the cells are assigned " + types.ExprString(as.Rhs[i]))
+				continue
+			}
+			if fid, ok := cl.Fun.(*ast.Ident); !ok || fid.Name != "append" {
+				bad("the cells are assigned " + types.ExprString(as.Rhs[i]))
+				continue
+			}
+			if a0, ok := unparen(cl.Args[0]).(*ast.Ident); !ok || info.ObjectOf(a0) != info.ObjectOf(id) {
+				bad("append does not extend the cell slice itself")
+				continue
+			}
+			loops := c15EnclosingLoops(par, as)
+			if len(loops) != 2 {
+				bad("the append is not inside exactly two nested loops (segments, graphemes)")
+				continue
+			}
+			in, out := c15IterOf(info, defs, loops[0]), c15IterOf(info, defs, loops[1])
+			if in == nil || out == nil || !in.full || !out.full {
+				bad("the loops do not visit every segment / every grapheme front to back")
+				continue
+			}
+			ox := unparen(defs.resolve(out.x))
+			if c15Field(info, ox) != content || rootObj(info, ox) != recv {
+				bad("the outer loop iterates over " + types.ExprString(out.x) + ", not over the widget's Content")
+				continue
+			}
+			okIn := false
+			if ccl, ok := unparen(defs.resolve(in.x)).(*ast.CallExpr); ok && len(ccl.Args) == 1 {
+				if fs, ok := ccl.Fun.(*ast.SelectorExpr); ok && fs.Sel.Name == "Characters" {
+					if ts, ok := unparen(defs.resolve(ccl.Args[0])).(*ast.SelectorExpr); ok && ts.Sel.Name == "Text" && out.isElem(ts.X) {
+						okIn = true
+					}
+				}
+			}
+			if !okIn {
+				bad("the inner loop does not iterate over ctx.Characters(<segment>.Text)")
+				continue
+			}
+			lit, ok := unparen(defs.resolve(cl.Args[1])).(*ast.CompositeLit)
+			if !ok {
+				bad("the appended value is not a Cell literal")
+				continue
+			}
+			okCh, okSt := false, false
+			for _, el := range lit.Elts {
+				kv, ok := el.(*ast.KeyValueExpr)
+				if !ok {
+					continue
+				}
+				switch kv.Key.(*ast.Ident).Name {
+				case "Character":
+					okCh = in.isElem(kv.Value)
+				case "Style":
+					if ss, ok := unparen(defs.resolve(kv.Value)).(*ast.SelectorExpr); ok && ss.Sel.Name == "Style" && out.isElem(ss.X) {
+						okSt = true
+					}
+				}
+			}
+			if !okCh {
+				bad("the cell's Character is not the grapheme being visited")
+			}
+			if !okSt {
+				bad("the cell's Style is not the Style of the segment being visited: graphemes are drawn without (or with another segment's) style")
+			}
+			outer = out
+		}
+		return true
+	})
+	c.check(startsEmpty && nApp >= 1 && okApp, "C16.i", name+"/cells are the graphemes of Content with their segment's style", fd.Pos(),
+		"the slice starts empty; only `cells = append(cells, Cell{Character: ch, Style: seg.Style})` for ch of ctx.Characters(seg.Text), seg of Content",
+		map[bool]string{true: whyApp, false: "the cell slice does not start empty or is never extended"}[!okApp])
+	if outer == nil {
+		return
+	}
+	late := true
+	isAnchor := func(n ast.Node) bool { return n == outer.anchor }
+	lenContent := c15TermLin("len("+fmt.Sprintf("%p", recv)+".Content)", "len("+recv.Name()+".Content)", true)
+	for _, h := range uses {
+		if g.MustPrecede(isAnchor, h.Loc) {
+			continue
+		}
+		// a way round the loop is fine only where the content is known to be empty (`if len(Content) == 0 { cells = nil }`)
+		found, guarded := 0, true
+		for _, eh := range g.Find(func(n ast.Node) bool {
+			as, ok := n.(*ast.AssignStmt)
+			if !ok || len(as.Lhs) != len(as.Rhs) {
+				return false
+			}
+			for i, l := range as.Lhs {
+				if id, ok := unparen(l).(*ast.Ident); ok && alias[info.ObjectOf(id)] && emptyExpr(as.Rhs[i]) {
+					return true
+				}
+			}
+			return false
+		}) {
+			if !g.ReachesAvoiding(eh.Loc, h.Loc, isAnchor) {
+				continue // this one goes through the loop
+			}
+			found++
+			if !c15Refuted(c15GuardsAt(g, eh.Loc), []c15Lin{lenContent.neg().plus(1)}) {
+				guarded = false
+			}
+		}
+		excused := found > 0 && guarded
+		// the initial empty definition always reaches the loop; anything else that skips it must be excused
+		if !excused {
+			late = false
+		}
+	}
+	c.check(late, "C16.i", name+"/cells are complete before they are measured and wrapped", fd.Pos(), "every consumer runs after the loop over Content",
+		"findContainerSize or a scanner can run before Content has been walked: what is wrapped is not the current content")
 }
